@@ -386,6 +386,7 @@ def epos_rules(prog, R, trimmer):
                     R.add('LEN-1', b, 'verdict-on-reported-lengths', decided, site(b, s.line),
                           'the UnequalLengths error %s' % ('is reached only through "trimmed seq length != trimmed qual length" (the lengths it reports)' if decided else 'can be reached without the trimmed lengths having been compared (e.g. on raw line extents only: a CRLF record without final terminator is rejected with seq == qual)'))
     len2_rule(prog, R, trimmer)
+    len3_rule(prog, R)
     for v in ('InvalidStart', 'InvalidSep', 'UnequalLengths', 'UnexpectedEnd'):
         if count.get(v, 0) < 1:
             R.add('EPOS-1', 'fastq', 'constructed:%s' % v, False, 'src/fastq.rs', 'no construction of fastq::Error::%s found' % v)
@@ -451,6 +452,7 @@ def epos_rules(prog, R, trimmer):
                 if t.callee and t.callee.is_('slice::split', 'core::slice::split', 'slice::splitn', 'core::slice::splitn'):
                     cb = closure_of_arg(prog, f, t, len(t.args) - 1)
                     sep = closure_separator(cb) if cb else None
+            g_len = head_guard_ok(prog, f)
             R.add('EPOS-5', f, 'id-guard', g_flag and g_len and from_head and sep == 32, site(f, st.line),
                   'id extracted only if requested (%s) and header extent > 1 (%s); taken from head() up to the first 0x%s' % (g_flag, g_len, '%02x' % sep if sep is not None else '?'))
     R.floor('UNIT-4', 1)
@@ -972,6 +974,85 @@ def ser_rules(prog, R):
 
 def count_len(b, op):
     return None
+
+
+def head_guard_ok(prog, f):
+    """every path of the position helper that slices the header (BufferPosition::head) is taken under
+    conditions that imply a non-negative slice extent hi - lo (solved symbolically, whatever the guard looks like)"""
+    from scev import Sym, Aff, Path, slice_range, linear_preds, preds_hold
+    hb = [b for b in prog.bodies.values() if b.key.endswith('fastq::BufferPosition::head')]
+    if len(hb) != 1:
+        return False
+    bp = ('f', ('self',), None, 'buf_pos')
+    rng = slice_range(prog, hb[0], bp)
+    if rng is None or not all(isinstance(x, Aff) for x in rng):
+        return False
+    ext = rng[1] - rng[0]
+    base = ext - Aff.const(ext.c)
+    init = Path()
+    init.env[1] = Aff.sym(('self',))
+    n = 0
+    for p in Sym(prog, f).run(0, init=init):
+        if not any(prog.local_callee_body(t.callee) is hb[0] for (_, t, _) in p.effects):
+            continue
+        n += 1
+        preds = linear_preds(p.conds, base)
+        if not preds or any(preds_hold(preds, u - ext.c) for u in (-1, -2, -(1 << 40))):
+            return False
+    return n > 0
+
+
+def len3_rule(prog, R):
+    """LEN-3 (mutation survey: the raw extents of the fast path can be computed wrongly and the suite passes)"""
+    from scev import Sym, Aff, Agg, Path, slice_range, linear_preds, preds_hold
+    R.rule('LEN-3', 'the validator accepts a record without comparing the trimmed lengths only under conditions that force the untrimmed sequence and quality slices (as the accessors cut them) to have equal extents; solved symbolically from the accessor slice bounds and the path conditions')
+    vals = [b for b in prog.bodies.values() if b.key.startswith('fastq::Reader::') and not is_derive(b) and any(
+        s.k == 'assign' and s.rv.k == 'agg' and s.rv.j.get('variant') == 'UnequalLengths' for blk in b.blocks for s in blk.stmts)]
+    acc = {}
+    for nm in ('seq', 'qual'):
+        bs = [b for b in prog.bodies.values() if b.key.endswith('fastq::BufferPosition::%s' % nm)]
+        if len(bs) == 1:
+            acc[nm] = bs[0]
+    if len(vals) != 1 or len(acc) != 2:
+        R.anchor_missing('LEN-3', 'the validator and the seq / qual slice accessors of fastq::BufferPosition')
+        return
+    v = vals[0]
+    bp = ('f', ('self',), None, 'buf_pos')
+    sr, qr = slice_range(prog, acc['seq'], bp), slice_range(prog, acc['qual'], bp)
+    if not sr or not qr or not all(isinstance(x, Aff) for x in sr + qr):
+        R.anchor_missing('LEN-3', 'slice bounds of the seq / qual accessors')
+        return
+    D = (sr[1] - sr[0]) - (qr[1] - qr[0])
+    base = D - Aff.const(D.c)
+    init = Path()
+    init.env[1] = Aff.sym(('self',))
+    n = ntrim = 0
+    raw = []
+    for p in Sym(prog, v).run(0, init=init):
+        r0 = p.env.get(0)
+        if p.end[0] != 'return' or not (isinstance(r0, Agg) and r0.variant == 'Ok'):
+            continue
+
+        def is_trim_len(a):
+            s1 = a.single() if isinstance(a, Aff) else None
+            return isinstance(s1, tuple) and s1[0] == 'len' and isinstance(s1[1], tuple) and s1[1][0] == 'call' and str(s1[1][1]).rsplit('::', 1)[-1] in ('seq', 'qual')
+        trimmed = False
+        for (_, d, taken) in p.conds:
+            s1 = d.single() if isinstance(d, Aff) else None
+            if isinstance(s1, tuple) and s1[0] == 'cmp' and s1[1] in ('Eq', 'Ne') and is_trim_len(s1[2]) and is_trim_len(s1[3]) and s1[2] != s1[3]:
+                truth = taken is None or taken != 0
+                if (s1[1] == 'Eq') == truth:
+                    trimmed = True
+        n += 1
+        if trimmed:
+            ntrim += 1
+            continue
+        preds = linear_preds(p.conds, base)
+        forced = bool(preds) and preds_hold(preds, -D.c) and not any(preds_hold(preds, -D.c + d) for d in (1, -1, 2, -2, 1 << 40, -(1 << 40)))
+        raw.append(forced)
+    R.add('LEN-3', v, 'acceptance-without-trimmed-comparison-forces-equal-slice-extents', all(raw) and n > 0, site(v, v.span['lo']),
+          '%d accepting paths: %d after the trimmed lengths compared equal, %d without; on the latter the path conditions force extent(seq slice) - extent(qual slice) = %r to be 0: %s' % (n, ntrim, len(raw), D, raw))
+    R.floor('LEN-3', 1)
 
 
 def len2_rule(prog, R, trimmer):
